@@ -355,6 +355,18 @@ class Client(BaseClient):
             message.EnableBLOB(device=device, value=const.BLOBEnable.ONLY)
         )
 
+    def process_blob_message(self, msg: IndiMessage):
+        """Handles messages arriving on the blob connection.
+
+        That connection exists for BLOB payloads only. Until its
+        `enableBLOB Only` (sent when a device is first seen) has reached the
+        server, the server also copies every other message to it. Those
+        copies are out of step with the control connection: applying them
+        could overwrite newer state with older, so they are dropped.
+        """
+        if isinstance(msg, message.SetBLOBVector):
+            self.process_message(msg)
+
     async def start(self):
         """Starts client and connects to the server.
 
@@ -364,7 +376,7 @@ class Client(BaseClient):
             self.process_message
         )
         self.blob_connection_handler = await self.blob_connection.connect(
-            self.process_message, for_blobs=True
+            self.process_blob_message, for_blobs=True
         )
 
         asyncio.get_running_loop().create_task(
